@@ -114,7 +114,14 @@ fn is_constant(expr: &Expr) -> bool {
         Expr::Object(ObjectLit { props, .. }) => props.iter().all(|prop| {
             if let PropOrSpread::Prop(prop) = prop {
                 match &**prop {
-                    Prop::KeyValue(KeyValueProp { value, .. }) => is_constant(value),
+                    Prop::KeyValue(KeyValueProp { key, value }) => {
+                        // a computed key is evaluated on every render, just like the value
+                        let is_key_constant = match key {
+                            PropName::Computed(computed) => is_constant(&computed.expr),
+                            _ => true,
+                        };
+                        is_key_constant && is_constant(value)
+                    }
                     Prop::Shorthand(ident) => &ident.sym == "undefined",
                     _ => false,
                 }
